@@ -127,6 +127,7 @@ impl<'a> BootInformation<'a> {
 //@  rules R2
 //@  rewrite /EndTag::ID/ => /ENDTAG_ID/
 //@  prologue proof { assert(size_of::<TagHeader>() == 8 && align_of::<TagHeader>() == 8 && size_of::<EndTag>() == 8 && size_of::<BootInformationHeader>() == 8); }
+//@  prologue proof { let a = ref_addr(self.0) as int; let sz = val_size(self.0) as int; assert(a % 8 == 0 && sz % 8 == 0 && sz >= 8); assert((a + sz - 8) % 8 == 0); assert(ref_meta(self.0) == sz - 8); }   // stabilises the alignment argument (mod 8) for the solver
 //@  spec:
 //@    requires self.wf(),
 //@    ensures r == spec_end_tag_ok(ref_prov(self.0), ref_addr(self.0) as int, val_size(self.0) as int),
